@@ -69,15 +69,23 @@ func ZZ_C18_pkce_T() {
 	runCode(newEnv("pkce", tx, nil), codeOpts{scopes: []string{"offline", "photos"}, pkce: true})
 }
 
-// ZZ_C18_pairs_T: pairs of faults (second symbolic index) in the three main flows.
+// ZZ_C18_pairs_T: pairs of faults (second symbolic index).
 func ZZ_C18_pairs_T() {
 	tx := storeChoice()
-	switch zz.Choice("flow", 3) {
+	switch zz.Choice("flow", 7) {
 	case 0:
 		runCode(newEnv("code2", tx, nil), codeOpts{scopes: []string{"offline", "photos"}, pairs: true})
 	case 1:
 		runRefresh(newEnv("refresh2", tx, nil), true)
 	case 2:
 		runReuse(newEnv("reuse2", tx, nil), true)
+	case 3:
+		runDevice(newDeviceEnvNamed("device2", tx), true)
+	case 4:
+		runRevoke(newEnv("revoke2", tx, nil), true)
+	case 5:
+		runDirect(newEnv("password2", tx, nil), true, true)
+	case 6:
+		runDirect(newEnv("clientcred2", tx, nil), false, true)
 	}
 }
